@@ -31,12 +31,7 @@ type condWant struct {
 func onlyIfAny(fn *ssa.Function, target ssa.Instruction, conds []condWant) bool {
 	cut := map[edge]bool{}
 	for _, cw := range conds {
-		b := cw.ci.If.Block()
-		idx := 0
-		if cw.ci.Pol != cw.want {
-			idx = 1
-		}
-		cut[edge{b.Index, b.Succs[idx].Index}] = true
+		cut[cw.ci.edgeWhen(cw.want)] = true
 	}
 	return !reachableBlocks(fn, 0, cut, nil)[target.Block().Index]
 }
@@ -255,7 +250,7 @@ func ruleG1(c *Ctx) *RuleResult {
 				return sf != nil && slots[sf]
 			}
 			var loose []string
-			durConds := ifsOn(fn, func(v ssa.Value) bool {
+			durConds := ifsOnV(fn, func(v ssa.Value) bool {
 				bo, ok := v.(*ssa.BinOp)
 				if !ok || (bo.Op != token.GEQ && bo.Op != token.LSS) {
 					return false
@@ -276,7 +271,7 @@ func ruleG1(c *Ctx) *RuleResult {
 			})
 			var durWant []condWant
 			for _, ci := range durConds {
-				bo := stripNot(ci.If.Cond).(*ssa.BinOp)
+				bo := ci.Val.(*ssa.BinOp)
 				durWant = append(durWant, condWant{ci, bo.Op == token.GEQ})
 			}
 			if ra != nil {
@@ -285,7 +280,7 @@ func ruleG1(c *Ctx) *RuleResult {
 				}
 			}
 			if ra != nil {
-				raConds := ifsOn(fn, condIs(ra))
+				raConds := ifsOnV(fn, condIs(ra))
 				if len(raConds) > 0 && onlyIf(fn, call, raConds, true) {
 					r.ok(base+"|random-access", pos, FuncName(fn), "a rotation is requested only at a random-access unit", "control dependent on the random-access flag")
 				} else {
@@ -293,7 +288,7 @@ func ruleG1(c *Ctx) *RuleResult {
 				}
 				var due []condWant
 				if pc != nil {
-					due = append(due, wantAll(ifsOn(fn, condIs(pc)), true)...)
+					due = append(due, wantAll(ifsOnV(fn, condIs(pc)), true)...)
 				}
 				due = append(due, durWant...)
 				switch {
@@ -310,7 +305,7 @@ func ruleG1(c *Ctx) *RuleResult {
 				}
 			} else {
 				// audio-led MPEG-TS: AU count and duration
-				auConds := ifsOn(fn, func(v ssa.Value) bool {
+				auConds := ifsOnV(fn, func(v ssa.Value) bool {
 					bo, ok := v.(*ssa.BinOp)
 					if !ok || bo.Op != token.GEQ {
 						return false
@@ -332,7 +327,7 @@ func ruleG1(c *Ctx) *RuleResult {
 			}
 			// the instant handed to the rotation is the instant that was compared
 			if len(durConds) > 0 {
-				bo := stripNot(durConds[0].If.Cond).(*ssa.BinOp)
+				bo := durConds[0].Val.(*ssa.BinOp)
 				t := bo.X.(*ssa.BinOp).X
 				if sameCallShape(t, call.Call.Args[0]) {
 					r.ok(base+"|same-instant", pos, FuncName(fn), "the DTS given to the rotation is the one that was compared with the minimum duration", "same expression")
@@ -492,8 +487,8 @@ func ruleT6(c *Ctx) *RuleResult {
 				}
 			}
 		}
-		craConds := ifsOn(cfn, condIs(cra))
-		pendConds := ifsOn(cfn, func(v ssa.Value) bool { f, _ := loadedField(v); return f == pending })
+		craConds := ifsOnV(cfn, condIs(cra))
+		pendConds := ifsOnV(cfn, func(v ssa.Value) bool { f, _ := loadedField(v); return f == pending })
 		if len(cFalse) == 0 {
 			r.fail(fnn+"|consumes-pending", c.Pos(fn.Pos()), fnn, "the pending flag is consumed at the next random-access unit", "the flag is never cleared: every later key frame forces a cut")
 		}
@@ -540,7 +535,7 @@ func ruleT6(c *Ctx) *RuleResult {
 			}
 		}
 		// (c) skip until the first random-access unit
-		firstConds := ifsOn(fn, func(v ssa.Value) bool { f, _ := loadedField(v); return f == firstRA })
+		firstConds := ifsOnV(fn, func(v ssa.Value) bool { f, _ := loadedField(v); return f == firstRA })
 		var forwards []ssa.Instruction
 		allInstrs(fn, func(in ssa.Instruction) {
 			if call, ok := in.(*ssa.Call); ok {
@@ -616,7 +611,7 @@ func ruleG2(c *Ctx) *RuleResult {
 		var accField *types.Var
 		var accBase ssa.Value
 		var sizeV ssa.Value
-		conds := ifsOn(fn, func(v ssa.Value) bool {
+		conds := ifsOnV(fn, func(v ssa.Value) bool {
 			bo, ok := v.(*ssa.BinOp)
 			if !ok || bo.Op != token.GTR {
 				return false
@@ -896,7 +891,7 @@ func ruleG4(c *Ctx) *RuleResult {
 				r.ok(key, c.Pos(st.Pos()), FuncName(fn), what, "copy of another stream's targetDuration ("+accessPath(lb)+")")
 				return
 			}
-			conds := ifsOn(fn, func(v ssa.Value) bool {
+			conds := ifsOnV(fn, func(v ssa.Value) bool {
 				bo, ok := v.(*ssa.BinOp)
 				if !ok {
 					return false
@@ -951,7 +946,7 @@ func ruleG5(c *Ctx) *RuleResult {
 				return
 			}
 			pts := call.Call.Args[0]
-			conds := ifsOn(fn, func(v ssa.Value) bool {
+			conds := ifsOnV(fn, func(v ssa.Value) bool {
 				bo, ok := v.(*ssa.BinOp)
 				if !ok || bo.Op != token.LSS || bo.X != pts {
 					return false
